@@ -85,6 +85,10 @@ func (e *endpoint) MaxHeaderLength() uint16 {
 
 // WritePacket writes a packet to the given destination address and protocol.
 func (e *endpoint) WritePacket(r *stack.Route, hdr buffer.Prependable, payload buffer.VectorisedView, protocol tcpip.TransportProtocolNumber, ttl uint8) *tcpip.Error {
+	if hdr.UsedLength()+payload.Size() > maxPayloadSize {
+		// The payload length field is 16 bits (no jumbograms).
+		return tcpip.ErrMessageTooLong
+	}
 	length := uint16(hdr.UsedLength() + payload.Size())
 	ip := header.IPv6(hdr.Prepend(header.IPv6MinimumSize))
 	ip.Encode(&header.IPv6Fields{
